@@ -9,6 +9,8 @@ package anytype
 
 import (
 	"fmt"
+	"reflect"
+	"sort"
 	"strconv"
 	"strings"
 )
@@ -388,9 +390,13 @@ func init() {
 	oracles["C05"] = listOracle
 	oracles["C09"] = func(c *oracleCtx) {
 		// deriving operations on both container kinds: the list pool and the object pool
+		c09DeriveTwice(c)
 		if c.filter != nil {
 			lf, of := map[string]bool{}, map[string]bool{}
 			for id := range c.filter {
+				if strings.HasPrefix(id, "D2:") {
+					continue
+				}
 				if strings.Contains(id, "|Set") || strings.Contains(id, "|Merge") || strings.Contains(id, "|Pluck") || strings.Contains(id, "|Unset") || strings.Contains(id, "|KeyOf") || strings.Contains(id, "|Getters") || strings.Contains(id, "|Clear:") && strings.Count(id, ":") > 3 {
 					of[id] = true
 				} else {
@@ -410,5 +416,249 @@ func init() {
 		c06Oracle(c)
 		c.rule = r1 + " || objects: " + c.rule
 		c.bound = b1 + " || objects: " + c.bound
+	}
+}
+
+// ---------------------------------------------------------------------------
+// C09: every deriving operation, applied twice to the same receiver, yields two independent results:
+// distinct top-level storage, and mutating the first result changes neither the receiver nor the
+// second result (nor a third one derived afterwards).
+
+type deriveOp struct {
+	id string
+	f  func(x any) any // nil result: not applicable to this receiver
+}
+
+func deriveOps() []deriveOp {
+	onL := func(f func(l List) any) func(any) any {
+		return func(x any) any {
+			if l, ok := x.(List); ok {
+				return f(l)
+			}
+			return nil
+		}
+	}
+	onO := func(f func(o Object) any) func(any) any {
+		return func(x any) any {
+			if o, ok := x.(Object); ok {
+				return f(o)
+			}
+			return nil
+		}
+	}
+	return []deriveOp{
+		{"Clone", onL(func(l List) any { return l.Clone() })},
+		{"SubList(0,0)", onL(func(l List) any { return l.SubList(0, 0) })},
+		{"SubList(0,n)", onL(func(l List) any { return l.SubList(0, l.Count()) })},
+		{"SubList(1,0)", onL(func(l List) any {
+			if l.Count() < 1 {
+				return nil
+			}
+			return l.SubList(1, 0)
+		})},
+		{"Concat(empty)", onL(func(l List) any { return l.Concat(NewList()) })},
+		{"Concat(self)", onL(func(l List) any { return l.Concat(l) })},
+		{"Concat(one)", onL(func(l List) any { return l.Concat(NewList(5)) })},
+		{"Filter(all)", onL(func(l List) any { return l.Filter(func(any) bool { return true }) })},
+		{"Filter(none)", onL(func(l List) any { return l.Filter(func(any) bool { return false }) })},
+		{"FilterInts", onL(func(l List) any { return l.FilterInts(func(int) bool { return true }) })},
+		{"FilterStrings", onL(func(l List) any { return l.FilterStrings(func(string) bool { return true }) })},
+		{"FilterObjects", onL(func(l List) any { return l.FilterObjects(func(Object) bool { return true }) })},
+		{"FilterLists", onL(func(l List) any { return l.FilterLists(func(List) bool { return true }) })},
+		{"Map(id)", onL(func(l List) any { return l.Map(func(_ int, v any) any { return v }) })},
+		{"MapValues(id)", onL(func(l List) any { return l.MapValues(func(v any) any { return v }) })},
+		{"MapInts", onL(func(l List) any { return l.MapInts(func(i int) any { return i }) })},
+		{"MapAsync(id)", onL(func(l List) any { return l.MapAsync(func(_ int, v any) any { return v }) })},
+		{"Slice", onL(func(l List) any { return l.Slice() })},
+		{"NativeSlice", onL(func(l List) any { return l.NativeSlice() })},
+		{"IntSlice", onL(func(l List) any { return l.IntSlice() })},
+		{"StringSlice", onL(func(l List) any { return l.StringSlice() })},
+		{"ObjectSlice", onL(func(l List) any { return l.ObjectSlice() })},
+		{"ListSlice", onL(func(l List) any { return l.ListSlice() })},
+		{"O.Clone", onO(func(o Object) any { return o.Clone() })},
+		{"O.Keys", onO(func(o Object) any { return o.Keys() })},
+		{"O.Values", onO(func(o Object) any { return o.Values() })},
+		{"O.Dict", onO(func(o Object) any { return o.Dict() })},
+		{"O.NativeDict", onO(func(o Object) any { return o.NativeDict() })},
+		{"O.Merge(empty)", onO(func(o Object) any { return o.Merge(NewObject()) })},
+		{"O.Merge(self)", onO(func(o Object) any { return o.Merge(o) })},
+		{"O.Merge(one)", onO(func(o Object) any { return o.Merge(NewObject("zz", 1)) })},
+		{"empty.Merge(O)", onO(func(o Object) any { return NewObject().Merge(o) })},
+		{"O.Pluck()", onO(func(o Object) any { return o.Pluck() })},
+		{"O.Pluck(a)", onO(func(o Object) any {
+			if !o.KeyExists("a") {
+				return nil
+			}
+			return o.Pluck("a")
+		})},
+		{"O.Map(id)", onO(func(o Object) any { return o.Map(func(_ string, v any) any { return v }) })},
+		{"O.MapValues(id)", onO(func(o Object) any { return o.MapValues(func(v any) any { return v }) })},
+		{"O.MapAsync(id)", onO(func(o Object) any { return o.MapAsync(func(_ string, v any) any { return v }) })},
+	}
+}
+
+// topMutate changes the top level of a derived result in every way its type allows.
+func topMutate(r any) {
+	switch x := r.(type) {
+	case List:
+		x.Add("mut")
+		if x.Count() > 1 {
+			x.Replace(0, "rep")
+			x.Reverse()
+			x.Delete(0)
+		}
+		x.Insert(0, 42)
+		x.Clear()
+		x.Add("after-clear")
+	case Object:
+		x.Set("mut", 1, "a", "over")
+		x.Unset("b")
+		x.Clear()
+		x.Set("after-clear", 1)
+	case []any:
+		for i := range x {
+			x[i] = "mut"
+		}
+		_ = append(x[:0], "app")
+	case []int:
+		for i := range x {
+			x[i] = -777
+		}
+	case []string:
+		for i := range x {
+			x[i] = "mut"
+		}
+	case []Object:
+		for i := range x {
+			x[i] = nil
+		}
+	case []List:
+		for i := range x {
+			x[i] = nil
+		}
+	case map[string]any:
+		for k := range x {
+			x[k] = "mut"
+		}
+		x["added"] = 1
+	}
+}
+
+func nativeAny(v any) any {
+	switch x := v.(type) {
+	case List:
+		return x.NativeSlice()
+	case Object:
+		return x.NativeDict()
+	case []any:
+		out := make([]any, len(x))
+		for i, e := range x {
+			out[i] = nativeAny(e)
+		}
+		return out
+	case map[string]any:
+		out := map[string]any{}
+		for k, e := range x {
+			out[k] = nativeAny(e)
+		}
+		return out
+	case []Object:
+		out := make([]any, len(x))
+		for i, e := range x {
+			out[i] = nativeAny(e)
+		}
+		return out
+	case []List:
+		out := make([]any, len(x))
+		for i, e := range x {
+			out[i] = nativeAny(e)
+		}
+		return out
+	case []int:
+		return append([]int(nil), x...)
+	case []string:
+		return append([]string(nil), x...)
+	}
+	return v
+}
+
+func sameTop(a, b any) bool {
+	switch x := a.(type) {
+	case List:
+		y, ok := b.(List)
+		return ok && x == y
+	case Object:
+		y, ok := b.(Object)
+		return ok && x == y
+	}
+	return false
+}
+
+func deriveReceivers() []treeGen {
+	return []treeGen{
+		{"L()", func() any { return NewList() }},
+		{"L(1,s,2.5)", func() any { return NewList(1, "s", 2.5) }},
+		{"L(1,2,3)+cap", func() any { l := NewList(1, 2, 3, 4, 5); l.Pop(); l.Pop(); return l }},
+		{"L(nested)", func() any { return NewList(NewObject("a", 1), NewList(1, 2), "x", 7) }},
+		{"L(grown)", func() any { l := NewList(); l.Add(1); l.Add("b"); l.Add(NewList()); return l }},
+		{"O()", func() any { return NewObject() }},
+		{"O(a,b)", func() any { return NewObject("a", 1, "b", "x") }},
+		{"O(nested)", func() any { return NewObject("a", NewList(1), "b", NewObject("k", 2), "c", nil) }},
+		{"O(set-unset)", func() any { return NewObject("a", 1, "b", 2, "c", 3).Unset("c").Set("a", NewList()) }},
+	}
+}
+
+func c09DeriveTwice(c *oracleCtx) {
+	for _, rg := range deriveReceivers() {
+		for _, op := range deriveOps() {
+			rg, op := rg, op
+			if op.f(rg.make()) == nil {
+				continue
+			}
+			c.check("D2:"+rg.id+":"+op.id, true, func() string {
+				x := rg.make()
+				xs := nativeAny(x)
+				r1 := op.f(x)
+				if !reflect.DeepEqual(xs, nativeAny(x)) {
+					return "the operation changed its receiver"
+				}
+				r2 := op.f(x)
+				if sameTop(r1, r2) || sameTop(r1, x) {
+					return "two applications returned the same container (or the receiver itself)"
+				}
+				norm := func(v any) any {
+					// Keys / Values come in map-iteration order: compare them as multisets
+					if a, ok := v.([]any); ok && (op.id == "O.Keys" || op.id == "O.Values") {
+						ss := make([]string, len(a))
+						for i, e := range a {
+							ss[i] = fmt.Sprintf("%#v", e)
+						}
+						sort.Strings(ss)
+						return ss
+					}
+					return v
+				}
+				s1, s2 := norm(nativeAny(r1)), norm(nativeAny(r2))
+				if !reflect.DeepEqual(s1, s2) {
+					return fmt.Sprintf("two applications to the same receiver differ: %v vs %v", s1, s2)
+				}
+				topMutate(r1)
+				if !reflect.DeepEqual(xs, nativeAny(x)) {
+					return "mutating the result changed the receiver"
+				}
+				if !reflect.DeepEqual(s2, norm(nativeAny(r2))) {
+					return "mutating one result changed another result of the same operation"
+				}
+				if r3 := op.f(x); !reflect.DeepEqual(s2, norm(nativeAny(r3))) {
+					return fmt.Sprintf("after mutating an earlier result the operation yields %v instead of %v", nativeAny(r3), s2)
+				}
+				// and the other way round: mutating the receiver leaves an earlier result alone
+				topMutate(x)
+				if !reflect.DeepEqual(s2, norm(nativeAny(r2))) {
+					return "mutating the receiver changed an earlier result"
+				}
+				return ""
+			})
+		}
 	}
 }
